@@ -6,6 +6,8 @@ import (
 	"go/token"
 	"os"
 	"strings"
+
+	"golang.org/x/tools/go/ssa"
 )
 
 type tokenPos = token.Pos
@@ -50,6 +52,42 @@ func main() {
 			}
 			p.Dump(os.Stdout, fn, *deep)
 		}
+	case "paths":
+		fs := flag.NewFlagSet("paths", flag.ExitOnError)
+		repo := fs.String("repo", "/repo", "repository")
+		_ = fs.Parse(os.Args[2:])
+		p, err := Load(LoadOpts{Dir: *repo})
+		if err != nil {
+			fmt.Fprintln(os.Stderr, "load:", err)
+			os.Exit(1)
+		}
+		if fs.NArg() < 2 {
+			usage()
+		}
+		fn := p.Fn(fs.Arg(0))
+		tgt := p.Calls(fs.Arg(1))
+		if fs.Arg(1) == "return" {
+			tgt = IsReturn
+		}
+		p.EnumPathsR(fn, tgt, 5000, func(facts []PathFact, trace []*ssa.BasicBlock, at ssa.Instruction, r PathRender) {
+			fmt.Printf("PATH %s\n", p.TraceString(trace))
+			for _, f := range facts {
+				fmt.Printf("   %v  %s\n", f.Val, f.Cond)
+			}
+			if c := callCommon(at); c != nil {
+				var as []string
+				for _, a := range callVals(at) {
+					as = append(as, r(a))
+				}
+				fmt.Printf("   => %s(%s)\n", p.CalleeName(c), strings.Join(as, ", "))
+			} else if ret, ok := at.(*ssa.Return); ok {
+				var as []string
+				for i := range ret.Results {
+					as = append(as, r(returnedValue(ret, i)))
+				}
+				fmt.Printf("   => return %s @%s\n", strings.Join(as, ", "), p.Pos(ret.Pos()))
+			}
+		})
 	case "funcs":
 		fs := flag.NewFlagSet("funcs", flag.ExitOnError)
 		repo := fs.String("repo", "/repo", "repository")
